@@ -47,6 +47,9 @@ CLAIMS = {
  "C04": ("fault_enumeration", "8.C04", "deterministic simulation: real NFC-DEP Initiator and Target over the real udp driver on a simulated air with enumerated per-frame {deliver, lose, corrupt} scripts",
          "For each seeded (DID, NAD, LRi, LRt, bit rate, RWT, conversation of 1-12 exchanges with payloads around multiples of the MIU) scenario: every single-fault script over the DEP-phase datagrams and all (thorough) / sampled (quick) double-fault scripts. Safety: payloads returned on each side are element-wise equal prefixes of what was passed in, only CommunicationError leaves exchange(), every frame measured against the LR read from the ATR on the wire. Liveness: a single lost or corrupted frame must be recovered.",
          "activation-phase frames (incl. the first DEP_REQ which the udp driver consumes in listen) are not faulted; RTOX and clock faults not generated"),
+ "C19": ("exploration", "8.C19", "deterministic simulation of two complete stacks activating with seeded option settings; negotiated parameters compared with the ATR/PSL/PAX bytes captured on the simulated air; later frames measured",
+         "Seeded grid sampling over role x brs x lri x lrt x rwt x miu (boundary values) x lto x agf x lsc on both devices: send-miu/recv-lto/send-wks/send-lsc of each side equal what the peer's PAX bytes carry on the wire, NFC-DEP payload limits follow the peer's LR (minus DID/NAD), bit rate equals the PSL selection, the options given to connect() appear on the air, and all later DEP frames and the largest UI stay within the limits.",
+         "sampling of the grid (900 activations quick, 150 k thorough), not its full enumeration"),
 }
 NA = {
  "C11": "pure encode/decode function of its argument: no schedule, clock, fault, peer or history enters the statement; deterministic simulation adds nothing over input generation (DESIGN.md section 9)",
